@@ -1001,6 +1001,10 @@ class TorControlProtocol(LineOnlyReceiver):
 
     def _accumulate_multi_response(self, line):
         "for FSM"
+        # data blocks are dot-stuffed on the wire (control-spec 2.4.1):
+        # a leading period was doubled by the sender
+        if line.startswith('.'):
+            line = line[1:]
         if self.command and self.command[2] is not None:
             self.command[2](line)
 
